@@ -147,4 +147,71 @@ theorem complete_run {s : S} (inv : Inv s) :
       ∧ (∀ ev, ev.isLookup = true → step s' ev = none) :=
   complete_run_aux (T s) inv (Nat.le_refl _)
 
+/-- the lookup steps of a schedule -/
+def countLookup : List Ev → Nat
+  | [] => 0
+  | e :: es => (if e.isLookup then 1 else 0) + countLookup es
+
+/-- the progress measure right after every event of the schedule that is NOT a lookup step (a directory
+change, a new handle, a new lookup), summed up along the run from `s` -/
+def changeBudget (s : S) : List Ev → Nat
+  | [] => 0
+  | e :: es =>
+    match step s e with
+    | some s1 => (if e.isLookup then 0 else T s1) + changeBudget s1 es
+    | none => 0
+
+/-- the number of non-lookup events -/
+def countChanges : List Ev → Nat
+  | [] => 0
+  | e :: es => (if e.isLookup then 0 else 1) + countChanges es
+
+theorem run_T_changes {s s' : S} (inv : Inv s) (sched : List Ev) (hr : run s sched = some s') :
+    countLookup sched + T s' ≤ T s + changeBudget s sched := by
+  induction sched generalizing s with
+  | nil => cases hr; simp [countLookup, changeBudget]
+  | cons e es ih =>
+    simp only [run] at hr
+    cases hst : step s e with
+    | none => rw [hst] at hr; cases hr
+    | some s1 =>
+      rw [hst] at hr
+      have h2 := ih (step_inv inv hst) hr
+      simp only [countLookup, changeBudget, hst]
+      cases hl : e.isLookup with
+      | true =>
+        have h1 := step_T inv hl hst
+        simp only [if_true]
+        have : (if false = true then 0 else T s1) = T s1 := rfl
+        simp only [Bool.false_eq_true, if_false] at *
+        omega
+      | false =>
+        simp only [Bool.false_eq_true, if_false]
+        omega
+
+/-- if the measure never exceeds `B` right after a change, the changes cost at most `B` each -/
+theorem changeBudget_le {s s' : S} (B : Nat) (sched : List Ev) (hr : run s sched = some s')
+    (hB : ∀ (pre : List Ev) (e : Ev) (post : List Ev) (s1 : S), sched = pre ++ e :: post → e.isLookup = false →
+      run s (pre ++ [e]) = some s1 → T s1 ≤ B) :
+    changeBudget s sched ≤ countChanges sched * B := by
+  induction sched generalizing s with
+  | nil => simp [changeBudget, countChanges]
+  | cons e es ih =>
+    simp only [run] at hr
+    cases hst : step s e with
+    | none => rw [hst] at hr; cases hr
+    | some s1 =>
+      rw [hst] at hr
+      have h2 := ih hr (by
+        intro pre e' post s2 hsp he' hrun
+        apply hB (e :: pre) e' post s2 (by rw [hsp]; rfl) he'
+        simp only [List.cons_append, run, hst]; exact hrun)
+      simp only [changeBudget, countChanges, hst]
+      cases hl : e.isLookup with
+      | true => simp only [if_true, Nat.zero_add]; simpa using h2
+      | false =>
+        have h1 := hB [] e es s1 rfl hl (by simp only [List.nil_append, run, hst])
+        simp only [Bool.false_eq_true, if_false, Nat.add_mul, Nat.one_mul]
+        omega
+
 end GixModel.C12.Live
